@@ -144,6 +144,15 @@ type LRec struct {
 	Counter uint64 `json:"counter,omitempty"`
 	H       int64  `json:"h,omitempty"`
 	Index   int16  `json:"index,omitempty"`
+	Denom   string `json:"denom,omitempty"` // earned / ownearn: the denomination of the record ("" = stake)
+}
+
+// denom of an earnings record: one of the two tokens of the harness world
+func (r LRec) denom() string {
+	if r.Denom == "" {
+		return "stake"
+	}
+	return r.Denom
 }
 
 var lrecKinds = []string{"def", "bind", "ownbind", "owner", "ownprov", "pricing", "withdraw", "ctx", "expq", "newq", "exph", "newh",
@@ -190,9 +199,9 @@ func (r LRec) Key() []byte {
 	case "vol":
 		return types.GetRequestVolumeKey(addr(r.A), r.Name, addr(r.B))
 	case "earned":
-		return types.GetEarnedFeesKey(addr(r.A), "stake")
+		return types.GetEarnedFeesKey(addr(r.A), r.denom())
 	case "ownearn":
-		return types.GetOwnerEarnedFeesKey(addr(r.A), "stake")
+		return types.GetOwnerEarnedFeesKey(addr(r.A), r.denom())
 	}
 	panic("unknown record kind " + r.Kind)
 }
@@ -206,8 +215,10 @@ func (r LRec) canon() string {
 		return r.Kind + "|" + r.Name + "|" + r.A
 	case "ownbind", "vol":
 		return r.Kind + "|" + r.A + "|" + r.Name + "|" + r.B
-	case "owner", "withdraw", "earned", "ownearn":
+	case "owner", "withdraw":
 		return r.Kind + "|" + r.A
+	case "earned", "ownearn":
+		return r.Kind + "|" + r.A + "|" + r.denom()
 	case "ownprov":
 		return r.Kind + "|" + r.A + "|" + r.B
 	case "ctx", "exph", "newh":
@@ -264,10 +275,16 @@ func genLRec(t *rapid.T, label string, kind string) LRec {
 		r.Name, r.A = genName(t, label+"n"), genAnyAddr(t, label+"a")
 	case "ownbind", "vol":
 		r.A, r.Name, r.B = gen20(t, label+"a"), genName(t, label+"n"), genAnyAddr(t, label+"b")
-	case "owner", "earned":
+	case "owner":
 		r.A = genAnyAddr(t, label+"a")
-	case "withdraw", "ownearn":
+	case "earned":
+		r.A = genAnyAddr(t, label+"a")
+		r.Denom = pick(t, label+"d", []string{"", "point"})
+	case "withdraw":
 		r.A = gen20(t, label+"a")
+	case "ownearn":
+		r.A = gen20(t, label+"a")
+		r.Denom = pick(t, label+"d", []string{"", "point"})
 	case "ownprov":
 		r.A, r.B = gen20(t, label+"a"), genAnyAddr(t, label+"b")
 	case "ctx", "exph", "newh":
@@ -303,7 +320,9 @@ func genKeysInput(t *rapid.T) interface{} {
 		// component that does not reach the key show up at once
 		fresh := genLRec(t, "r2b", k1)
 		r := in.R1
-		switch pick(t, "field", []string{"ctx", "name", "a", "b", "counter", "h", "index"}) {
+		switch pick(t, "field", []string{"ctx", "name", "a", "b", "counter", "h", "index", "denom"}) {
+		case "denom":
+			r.Denom = fresh.Denom
 		case "ctx":
 			r.Ctx = fresh.Ctx
 		case "name":
@@ -382,6 +401,8 @@ var scanDefs = map[string]scanDef{
 		func(s, r LRec) bool { return r.A == s.A }},
 	// provider earnings are scanned by the keeper, which post-filters: checked through the keeper
 	"provider_earnings_keeper": {"earned", nil, func(s, r LRec) bool { return r.A == s.A }},
+	// the same through the keeper for an owner's total (20-byte addresses), in one or two denominations
+	"owner_earnings_keeper": {"ownearn", nil, func(s, r LRec) bool { return r.A == s.A }},
 	// the by-owner listing decodes (service, provider) from the scanned index keys: through the keeper as well
 	"owner_bindings_keeper": {"ownbind", nil, func(s, r LRec) bool { return r.A == s.A && r.Name == s.Name }},
 }
@@ -397,7 +418,7 @@ func genScanInput(t *rapid.T) interface{} {
 	if pct(t, "subject_in_pop", 70) {
 		in.Pop = append(in.Pop, in.Subject)
 	}
-	if name == "provider_earnings_keeper" && pct(t, "two_denoms", 50) {
+	if (name == "provider_earnings_keeper" || name == "owner_earnings_keeper") && pct(t, "two_denoms", 50) {
 		in.TwoDenoms = true
 		in.BaseDenom = pick(t, "scan_base_denom", []string{"", "point"})
 	}
@@ -459,7 +480,16 @@ func checkScan(x interface{}) (*Violation, []string, bool) {
 			got[LRec{Kind: "ownbind", A: hx(b.Owner), Name: b.ServiceName, B: hx(b.Provider)}.canon()] = true
 		}
 	} else {
-		// keeper-level: provider earnings
+		// keeper-level: provider earnings (one population record per provider: the amounts are set per provider)
+		seenA := map[string]bool{}
+		var uniq []LRec
+		for _, r := range pop {
+			if !seenA[r.A] {
+				seenA[r.A] = true
+				uniq = append(uniq, r)
+			}
+		}
+		pop = uniq
 		cfg := defaultConfig()
 		cfg.BaseDenom = in.BaseDenom
 		w := NewWorld(cfg)
@@ -470,10 +500,16 @@ func checkScan(x interface{}) (*Violation, []string, bool) {
 			}
 			return c
 		}
-		for i, r := range pop {
-			w.k.SetEarnedFees(w.ctx, addr(r.A), earn(i))
+		who := "provider"
+		set, get, del := w.k.SetEarnedFees, w.k.GetEarnedFees, w.k.DeleteEarnedFees
+		if in.Scan == "owner_earnings_keeper" {
+			who = "owner"
+			set, get, del = w.k.SetOwnerEarnedFees, w.k.GetOwnerEarnedFees, w.k.DeleteOwnerEarnedFees
 		}
-		fees, _ := w.k.GetEarnedFees(w.ctx, addr(in.Subject.A))
+		for i, r := range pop {
+			set(w.ctx, addr(r.A), earn(i))
+		}
+		fees, _ := get(w.ctx, addr(in.Subject.A))
 		wantC := sdk.NewCoins()
 		for i, r := range pop {
 			if r.A == in.Subject.A {
@@ -482,21 +518,21 @@ func checkScan(x interface{}) (*Violation, []string, bool) {
 		}
 		if !fees.IsEqual(wantC) {
 			return &Violation{Prop: "C18", Sig: "c18:scan:" + in.Scan,
-				Msg: fmt.Sprintf("earned fees of provider %s read as %q, its own records hold %q (population %d, base denomination %q)", in.Subject.A, fees, wantC, len(pop), cfg.baseDenom())}, nil, false
+				Msg: fmt.Sprintf("earned fees of %s %s read as %q, its own records hold %q (population %d, base denomination %q)", who, in.Subject.A, fees, wantC, len(pop), cfg.baseDenom())}, nil, false
 		}
-		w.k.DeleteEarnedFees(w.ctx, addr(in.Subject.A))
-		if left, _ := w.k.GetEarnedFees(w.ctx, addr(in.Subject.A)); !left.IsZero() {
+		del(w.ctx, addr(in.Subject.A))
+		if left, _ := get(w.ctx, addr(in.Subject.A)); !left.IsZero() {
 			return &Violation{Prop: "C18", Sig: "c18:scan:" + in.Scan,
-				Msg: fmt.Sprintf("deleting the earnings of provider %s left %q behind", in.Subject.A, left)}, nil, false
+				Msg: fmt.Sprintf("deleting the earnings of %s %s left %q behind", who, in.Subject.A, left)}, nil, false
 		}
 		for i, r := range pop {
 			if r.A == in.Subject.A {
 				continue
 			}
-			f, _ := w.k.GetEarnedFees(w.ctx, addr(r.A))
+			f, _ := get(w.ctx, addr(r.A))
 			if !f.IsEqual(earn(i)) {
 				return &Violation{Prop: "C18", Sig: "c18:scan:" + in.Scan,
-					Msg: fmt.Sprintf("deleting the earnings of provider %s changed those of %s", in.Subject.A, r.A)}, nil, false
+					Msg: fmt.Sprintf("deleting the earnings of %s %s changed those of %s", who, in.Subject.A, r.A)}, nil, false
 			}
 		}
 		got = want
